@@ -209,7 +209,7 @@ Proof. intros (Hp & _). unfold bw_bytes. rewrite div8_spec, Hp. lia. Qed.
 
 Lemma bw_rep_buffer w bs : bw_rep w bs -> bw_buffer w = pack_msb bs.
 Proof.
-  intros (Hp & Hd & Hc). unfold bw_buffer, pack_msb. rewrite mod8_spec, Hp, Hd, Hc.
+  intros (Hp & Hd & Hc). unfold bw_buffer, pack_msb. rewrite <- rev_alt. rewrite mod8_spec, Hp, Hd, Hc.
   pose proof (Nat.div_mod (length bs) 8 ltac:(lia)) as HL.
   pose proof (Nat.mod_upper_bound (length bs) 8 ltac:(lia)) as Hj.
   destruct (Nat.eq_dec (length bs mod 8) 0) as [E | E].
